@@ -4,7 +4,7 @@ import json
 import pvlib
 from pvlib import Check, run_tlc, run_cases, payloads, ndjson
 
-PRELUDE = ("P := Int.bear; Q := Str.bear; R := Float.bear; P2 := Int.bear({tag: 2}); PA := Arr.bear; "
+PRELUDE = ("P := Int.bear; Q := Str.bear; R := Float.bear; P2 := Int.bear({tag: 2}); PA := Arr.bear; P3 := Int.bear; Q3 := Str.bear; R3 := Float.bear; P4 := Int.bear({tag: 2}); "
            "o1 := {a: 1}; E1 := 1.try.nosuch; E2 := \"s\".try.nosuch2; f1 := {|x| x}; ")
 
 # (source, family, python value for classification, proto tag)
@@ -46,6 +46,8 @@ POOL = [
     # neighbouring ints beyond 2**53 (distinct as ints, the same number after conversion to a float)
     ("9007199254740992", "int", 2**53, "Int"), ("9007199254740993", "int", 2**53 + 1, "Int"), ("9223372036854775806", "int", 2**63 - 2, "Int"),
     ("(-9223372036854775806)", "int", -(2**63 - 2), "Int"), ("P.new(9007199254740993)", "int", 2**53 + 1, "P"), ("P.new(9007199254740994)", "int", 2**53 + 2, "P"),
+    # instances of SIBLING prototypes that are made separately and look alike (P3 like P, P4 like P2, Q3 like Q, R3 like R)
+    ("P3.new(1)", "int", 1, "P3"), ("P3.new(2)", "int", 2, "P3"), ("P4.new(2)", "int", 2, "P4"), ('Q3.new("a")', "str", "a", "Q3"), ("R3.new(1.5)", "float", 1.5, "R3"),
     # values a built-in produced, equal to literals of the pool
     ('("" + "a")', "str", "a", "Str"), ('"A".lc', "str", "a", "Str"), ('["a", "b"].join("")', "str", "ab", "Str"), ("(0 + 1)", "int", 1, "Int"), ("(3 - 1)", "int", 2, "Int"),
     ("(0.5 + 1.0)", "float", 1.5, "Float"), ("(4.0 / 2.0)", "float", 2.0, "Float"), ('"1.5".F', "float", 1.5, "Float"), ('"2".I', "int", 2, "Int"), ("[1, 2].len", "int", 2, "Int"),
